@@ -64,7 +64,118 @@ class Canon(ast.NodeTransformer):
         return node
 
 
+CMP_METHODS = {"lt": ast.Lt, "le": ast.LtE, "gt": ast.Gt, "ge": ast.GtE, "eq": ast.Eq, "ne": ast.NotEq}
+DIM_FIRST_METHODS = {"sum", "mean", "max", "min", "any", "all", "cumsum", "cumprod", "prod", "softmax", "log_softmax", "argmax",
+                     "argmin", "unsqueeze", "squeeze", "logsumexp", "std", "var", "flip"}
+DIM_SECOND_FUNCS = {"cat", "stack", "softmax", "log_softmax", "sum", "mean", "cumsum", "logsumexp", "unsqueeze", "squeeze"}
+
+
+def _is_none(e):
+    return isinstance(e, ast.Constant) and e.value is None
+
+
+def _full_slice(e):
+    return isinstance(e, ast.Slice) and e.lower is None and e.upper is None and e.step is None
+
+
+class Idioms(ast.NodeTransformer):
+    """One spelling for interchangeable torch idioms (the rules then need to know only that spelling):
+        a.lt(b) / le / gt / ge / eq / ne          ->  a < b ...            (one positional argument)
+        x.size(k)                                 ->  x.shape[k]           (x.size() -> x.shape)
+        x[:, None], x[None], x[..., None]         ->  x.unsqueeze(1) / (0) / (-1)
+        x.clamp(min=c) / clamp(max=c) (+ in-place) ->  x.clamp_min(c) / clamp_max(c)
+        float("-inf"), -math.inf, -torch.inf      ->  -float("inf")        (and the positive forms -> float("inf"))
+        torch.cat((a, b), dim=k) / stack          ->  torch.cat([a, b], k)
+        f(x, dim=k) / x.m(dim=k) for the usual reductions -> positional k
+        torch.where(m, torch.full_like(t, v), t)  ->  t.masked_fill(m, v)
+        torch.where(m, t, torch.zeros_like(t))    ->  t.masked_fill(~m, 0.0)"""
+
+    def visit_Call(self, node: ast.Call):
+        self.generic_visit(node)
+        f = node.func
+        if isinstance(f, ast.Attribute):
+            m = f.attr
+            if m in CMP_METHODS and len(node.args) == 1 and not node.keywords and not isinstance(node.args[0], ast.Starred):
+                return ast.copy_location(ast.Compare(left=f.value, ops=[CMP_METHODS[m]()], comparators=[node.args[0]]), node)
+            if m == "size" and not node.keywords and len(node.args) <= 1:
+                sh = ast.copy_location(ast.Attribute(value=f.value, attr="shape", ctx=ast.Load()), node)
+                if not node.args:
+                    return sh
+                return ast.copy_location(ast.Subscript(value=sh, slice=node.args[0], ctx=ast.Load()), node)
+            if m in ("clamp", "clamp_") and not node.args and len(node.keywords) == 1 and node.keywords[0].arg in ("min", "max"):
+                suf = "_" if m.endswith("_") else ""
+                node.func = ast.copy_location(ast.Attribute(value=f.value, attr=f"clamp_{node.keywords[0].arg}{suf}", ctx=ast.Load()), f)
+                node.args = [node.keywords[0].value]
+                node.keywords = []
+                return node
+            base = ast.unparse(f.value)
+            is_func = base in ("torch", "torch.nn.functional", "F")
+            if not is_func and m in DIM_FIRST_METHODS and not node.args and node.keywords and node.keywords[0].arg == "dim":
+                node.args = [node.keywords[0].value]
+                node.keywords = node.keywords[1:]
+            if is_func and m in DIM_SECOND_FUNCS and len(node.args) == 1 and node.keywords and node.keywords[0].arg == "dim":
+                node.args = [node.args[0], node.keywords[0].value]
+                node.keywords = node.keywords[1:]
+            if is_func and m in ("cat", "stack") and node.args and isinstance(node.args[0], ast.Tuple):
+                node.args[0] = ast.copy_location(ast.List(elts=node.args[0].elts, ctx=ast.Load()), node.args[0])
+            if base == "torch" and m == "where" and len(node.args) == 3 and not node.keywords:
+                c, a, b = node.args
+
+                def like(e, kind):
+                    return isinstance(e, ast.Call) and ast.unparse(e.func) == f"torch.{kind}" and e.args
+                if like(a, "full_like") and len(a.args) == 2 and ast.unparse(a.args[0]) == ast.unparse(b):
+                    return ast.copy_location(ast.Call(func=ast.Attribute(value=b, attr="masked_fill", ctx=ast.Load()),
+                                                      args=[c, a.args[1]], keywords=[]), node)
+                if like(b, "zeros_like") and ast.unparse(b.args[0]) == ast.unparse(a):
+                    return ast.copy_location(ast.Call(func=ast.Attribute(value=a, attr="masked_fill", ctx=ast.Load()),
+                                                      args=[ast.UnaryOp(op=ast.Invert(), operand=c), ast.Constant(value=0.0)],
+                                                      keywords=[]), node)
+        # float("-inf") / float("inf")
+        if isinstance(f, ast.Name) and f.id == "float" and len(node.args) == 1 and isinstance(node.args[0], ast.Constant) \
+                and isinstance(node.args[0].value, str):
+            sv = node.args[0].value.strip().lower()
+            if sv in ("-inf", "-infinity"):
+                return ast.copy_location(ast.UnaryOp(op=ast.USub(), operand=ast.Call(
+                    func=ast.Name(id="float", ctx=ast.Load()), args=[ast.Constant(value="inf")], keywords=[])), node)
+            if sv in ("inf", "+inf", "infinity"):
+                node.args = [ast.Constant(value="inf")]
+        return node
+
+    def visit_Attribute(self, node: ast.Attribute):
+        self.generic_visit(node)
+        if node.attr == "inf" and isinstance(node.value, ast.Name) and node.value.id in ("math", "torch", "np", "numpy") \
+                and isinstance(node.ctx, ast.Load):
+            return ast.copy_location(ast.Call(func=ast.Name(id="float", ctx=ast.Load()), args=[ast.Constant(value="inf")],
+                                              keywords=[]), node)
+        return node
+
+    def visit_Subscript(self, node: ast.Subscript):
+        self.generic_visit(node)
+        if not isinstance(node.ctx, ast.Load):
+            return node
+        sl = node.slice
+        items = list(sl.elts) if isinstance(sl, ast.Tuple) else [sl]
+        nones = [i for i, it in enumerate(items) if _is_none(it)]
+        if len(nones) != 1:
+            return node
+        others = [it for i, it in enumerate(items) if i != nones[0]]
+        dim = None
+        if all(_full_slice(it) for it in others):
+            dim = nones[0]
+        elif nones[0] == len(items) - 1 and len(others) == 1 and isinstance(others[0], ast.Constant) and others[0].value is Ellipsis:
+            dim = -1
+        if dim is None:
+            return node
+        dn = ast.Constant(value=dim) if dim >= 0 else ast.UnaryOp(op=ast.USub(), operand=ast.Constant(value=-dim))
+        return ast.copy_location(ast.Call(func=ast.Attribute(value=node.value, attr="unsqueeze", ctx=ast.Load()), args=[dn],
+                                          keywords=[]), node)
+
+
 def canonicalise(tree: ast.AST) -> ast.AST:
+    import os
+    if os.environ.get("VERIF_NO_IDIOMS") != "1":
+        tree = Idioms().visit(tree)
+        ast.fix_missing_locations(tree)
     tree = Canon().visit(tree)
     ast.fix_missing_locations(tree)
     return tree
